@@ -32,8 +32,9 @@
     log_access <names> <flavour>         iteration through TensorAccess::from(&t, names)
     log_view <adaptor> <flavour>         iteration through one view adaptor over the tensor:
                                          range:<name>.<start>.<len> | mask:<name>.<start>.<len> |
-                                         reverse:<name>   (TensorRange/TensorMask::from_all, clipped;
-                                         TensorReverse::from)
+                                         reverse:<name> | index:<name>.<i>   (TensorRange/TensorMask::
+                                         from_all, clipped; TensorReverse::from; TensorIndex::from,
+                                         i.e. `select`, which must reject i >= length)
         → accesses=<count> inbounds ## <leaf kind> <imm|mut> len=<stored> offs=<offsets>
         (`rejected` if the access constructor panics)
   Matrix cases (each a case of its own):
@@ -242,8 +243,23 @@ def stepT (s : Option T) (toks : List String) : Option T × String :=
     match s, flavourMutable fl with
     | none, some _ => (s, "no-tensor")
     | some t, some m =>
-      -- the adaptor over the tensor as the C09 model builds it (clipping, rejection of empty views)
-      match Driver.C09.applyTensorAdaptor (t.shape.map (·.1)) (tensorSource t) ad with
+      -- the adaptor over the tensor as the C09 model builds it (clipping, rejection of empty views);
+      -- `index:` (TensorIndex / select) is modelled in Model/Survivor.lean
+      let names := t.shape.map (·.1)
+      let built : Option (List String × Iter.TSource Nat) :=
+        match ad.splitOn ":" with
+        | ["index", spec] =>
+          match spec.splitOn "." with
+          | [n, i] =>
+            match i.toNat? with
+            | some i =>
+              if names.contains n then
+                (indexSource (tensorSource t) (names.idxOf n) i).map fun src => (names, src)
+              else none
+            | none => none
+          | _ => none
+        | _ => Driver.C09.applyTensorAdaptor names (tensorSource t) ad
+      match built with
       | none => (s, "rejected")
       | some (_, src) =>
         (s, showAccesses "tensor" m t.data.length (tensorAccesses src (prod src.shape + 1)))
